@@ -312,7 +312,7 @@ func monitorRenew(sc NScenario, o nOutcome, dist func(string)) (vs []viol) {
 func scString(sc NScenario) string {
 	s := fmt.Sprintf("dir=%v script=", sc.Dir)
 	for _, it := range sc.Script {
-		if it.Kind == kOK || it.Kind == kAnchorErr || it.Kind == kNoID {
+		if it.Kind == kOK || it.Kind == kAnchorErr || it.Kind == kWriteErr || it.Kind == kNoID {
 			s += fmt.Sprintf("%s(%v,%v) ", it.Kind, time.Duration(it.A), time.Duration(it.B))
 		} else {
 			s += it.Kind + " "
